@@ -891,6 +891,72 @@ def b_snap_stage(S):
     return "\n".join(out)
 
 
+def b_branches_and_nodes(S):
+    """the whole orchestration of `branches_and_nodes` after the z-coordinate clean-up: duplicate filter, LineString filter, crop unless
+    already clipped (BEFORE snapping), the snapping stage (first pass + `while` loop with `report_snapping_loop`), the trace length
+    filter, noding with its type dispatch and TypeError, the branch length filter, node table, branch labels. Every stage is a
+    parameter (the stages themselves are regenerated by other items); what is regenerated here is their ORDER and plumbing."""
+    src = S[BAN]
+    rfn = find_func(ast.parse(src), "report_snapping_loop")
+    cond = [n for n in ast.walk(rfn) if isinstance(n, ast.If) and any(isinstance(b, ast.Raise) for b in n.body)]
+    if len(cond) != 1 or ast.unparse(cond[0].test) != "loops > allowed_loops" or "RecursionError" not in ast.unparse(cond[0].body[0]):
+        raise Untranslatable("report_snapping_loop does not raise RecursionError iff loops > allowed_loops")
+    C = {
+        "filter_non_unique_traces(traces_geosrs, snap_threshold=snap_threshold)": "(dedupe traces_geosrs)",
+        "areas.geometry": "areas",
+        "[[poly] if isinstance(poly, Polygon) else list(poly.geoms) for poly in areas_geosrs.geometry.values if isinstance(poly, (Polygon, MultiPolygon))]": "(List.map polys_of areas_geosrs)",
+        "list(chain(*areas_lists_of_polygons))": "(List.flatMap id areas_lists_of_polygons)",
+        "[trace for trace in traces_geosrs.geometry.values if isinstance(trace, LineString)]": "(List.filter is_ls traces_geosrs)",
+        "[trace for trace in crop_to_target_areas(gpd.GeoSeries(traces_list, crs=traces.crs), areas_geosrs, keep_column_data=False).geometry.values if isinstance(trace, LineString)]":
+            "(List.filter is_ls (crop traces_list areas_geosrs))",
+        "snap_traces(traces_list, snap_threshold, areas=areas_list)": "(snap_ traces_list snap_threshold areas_list)",
+        "snap_traces(traces_list, snap_threshold, final_allowed_loop=loops == allowed_loops, areas=areas_list)": "(snap_ traces_list snap_threshold areas_list)",
+        "gpd.GeoSeries(traces_list, crs=traces.crs)": "traces_list",
+        "traces_geosrs.loc[traces_geosrs.geometry.length > snap_threshold * 2.01]": "(List.filter (fun tr => decide (len tr > snap_threshold * (201 / 100))) traces_geosrs)",
+        "traces_geosrs.union_all()": "(union_all traces_geosrs)",
+        "isinstance(unary_union_result, MultiLineString)": "(u_is_multi unary_union_result)",
+        "list(unary_union_result.geoms)": "(u_parts unary_union_result)",
+        "isinstance(unary_union_result, LineString)": "(u_is_line unary_union_result)",
+        "[unary_union_result]": "(u_parts unary_union_result)",
+        "gpd.GeoSeries([b for b in branches_all if b.length > snap_threshold * 1.01], crs=traces_geosrs.crs)": "(List.filter (fun b => decide (len b > snap_threshold * (101 / 100))) branches_all)",
+        "node_identities_from_branches(branches=branches, areas=areas_geosrs, snap_threshold=snap_threshold)": "(node_table branches areas_geosrs snap_threshold)",
+        "gpd.GeoSeries(nodes)": "nodes",
+        "get_branch_identities(branches, nodes_geosrs, node_identities, snap_threshold)": "(branch_labels branches nodes_geosrs node_identities snap_threshold)",
+        "gpd.GeoDataFrame({GEOMETRY_COLUMN: nodes_geosrs, CLASS_COLUMN: node_identities}, crs=traces.crs)": "(List.zip nodes_geosrs node_identities)",
+        "gpd.GeoDataFrame({GEOMETRY_COLUMN: branches, CONNECTION_COLUMN: branch_identities}, crs=traces.crs)": "(List.zip branches branch_identities)",
+    }
+    T = {k: None for k in C}
+    T = {
+        "filter_non_unique_traces(traces_geosrs, snap_threshold=snap_threshold)": "List G", "traces_geosrs": "List G", "areas.geometry": "List A", "areas_geosrs": "List A",
+        "[[poly] if isinstance(poly, Polygon) else list(poly.geoms) for poly in areas_geosrs.geometry.values if isinstance(poly, (Polygon, MultiPolygon))]": "List (List Pg)",
+        "areas_lists_of_polygons": "List (List Pg)", "list(chain(*areas_lists_of_polygons))": "List Pg", "areas_list": "List Pg",
+        "[trace for trace in traces_geosrs.geometry.values if isinstance(trace, LineString)]": "List G", "traces_list": "List G",
+        "[trace for trace in crop_to_target_areas(gpd.GeoSeries(traces_list, crs=traces.crs), areas_geosrs, keep_column_data=False).geometry.values if isinstance(trace, LineString)]": "List G",
+        "snap_traces(traces_list, snap_threshold, areas=areas_list)": "Except (List G × Bool)",
+        "snap_traces(traces_list, snap_threshold, final_allowed_loop=loops == allowed_loops, areas=areas_list)": "Except (List G × Bool)",
+        "loops": "Nat", "any_changes_applied": "Bool", "gpd.GeoSeries(traces_list, crs=traces.crs)": "List G",
+        "traces_geosrs.loc[traces_geosrs.geometry.length > snap_threshold * 2.01]": "List G", "traces_geosrs.union_all()": "U", "unary_union_result": "U",
+        "isinstance(unary_union_result, MultiLineString)": "Bool", "list(unary_union_result.geoms)": "List G", "isinstance(unary_union_result, LineString)": "Bool",
+        "[unary_union_result]": "List G", "branches_all": "List G",
+        "gpd.GeoSeries([b for b in branches_all if b.length > snap_threshold * 1.01], crs=traces_geosrs.crs)": "List G", "branches": "List G",
+        "node_identities_from_branches(branches=branches, areas=areas_geosrs, snap_threshold=snap_threshold)": "List N × List String", "nodes": "List N", "node_identities": "List String",
+        "gpd.GeoSeries(nodes)": "List N", "nodes_geosrs": "List N",
+        "get_branch_identities(branches, nodes_geosrs, node_identities, snap_threshold)": "List String", "branch_identities": "List String",
+        "gpd.GeoDataFrame({GEOMETRY_COLUMN: nodes_geosrs, CLASS_COLUMN: node_identities}, crs=traces.crs)": "List (N × String)", "node_gdf": "List (N × String)",
+        "gpd.GeoDataFrame({GEOMETRY_COLUMN: branches, CONNECTION_COLUMN: branch_identities}, crs=traces.crs)": "List (G × String)", "branch_gdf": "List (G × String)",
+    }
+    return translate_function(
+        src, "branches_and_nodes", "branches_and_nodes",
+        {"traces_geosrs": "List G", "areas": "List A", "snap_threshold": "Rat", "allowed_loops": "Nat", "already_clipped": "Bool", "fuel": "Nat"},
+        "List (G × String) × List (N × String)", C, types=T, raises=True,
+        extra_params=[("{G}", "Type"), ("{A}", "Type"), ("{Pg}", "Type"), ("{U}", "Type"), ("{N}", "Type"), ("dedupe", "List G → List G"), ("polys_of", "A → List Pg"), ("is_ls", "G → Bool"),
+                      ("crop", "List G → List A → List G"), ("snap_", "List G → Rat → List Pg → Except String (List G × Bool)"), ("len", "G → Rat"), ("union_all", "List G → U"),
+                      ("u_is_multi", "U → Bool"), ("u_is_line", "U → Bool"), ("u_parts", "U → List G"), ("node_table", "List G → List A → Rat → List N × List String"),
+                      ("branch_labels", "List G → List N → List String → Rat → List String")],
+        slice_from="traces_geosrs = filter_non_unique_traces", default_num="Rat", join="tuple",
+        raisers={"report_snapping_loop(loops, allowed_loops=allowed_loops)": ("(decide (loops > allowed_loops))", "RecursionError")})
+
+
 def b_determine_intersect(S):
     """`determine_intersect`: which ordered pair of sets an X/Y node between two sets is recorded under, or ValueError"""
     fn = find_func(ast.parse(S[REL]), "determine_intersect")
@@ -1529,6 +1595,7 @@ ITEMS: List[Item] = [
     Item("SnapConstants", BAN, ["C01", "C03", "C06", "C16"], b_snap_constants),
     Item("SnapInsert", BAN, ["C06"], b_snap_insert),
     Item("InsertPoint", BAN, ["C06", "C04", "C01"], b_insert_point),
+    Item("BranchesAndNodes", BAN, ["C01", "C14", "C04", "C03"], b_branches_and_nodes),
     Item("SimpleSnap", BAN, ["C06", "C01"], b_simple_snap),
     Item("SnapStage", BAN, ["C06", "C01"], b_snap_stage, deps=["SnapInsert"]),
     Item("SnapDriver", BAN, ["C06", "C03"], b_snap_driver),
